@@ -2,6 +2,7 @@
 
 A *plan* is a dict
   {'kind': 'req', 'mode': implicit|early|explicit, 'file': bool, 'acts': [touch|acquire|release|regen…],
+   'afterReq': bool (an engine listener on 'after_request' raises while the request is released),
    'out': ok|http|redirect|exc, 'stream': bool, 'gen': bool, 'genTouch': bool, 'genRaise': bool,
    'consume': full|abandon, 'saveFails': bool, 'oer': ok|http|redirect|exc,
    'brb' / 'bh' / 'bf' / 'eer': [[prio, failsafe, out]…]}        (user hooks)
@@ -202,12 +203,19 @@ def build_app(env, plan, journal, holder):
         'tools.sessions.locking': 'implicit',
         'tools.sessions.clean_freq': 0,
         'request.show_tracebacks': True,
+        'tools.sessions.debug': bool(plan.get('debug')),
+        # tools.encode (on by default) reads a non-streamed generator body inside the handler stage; without
+        # it sessions.save() itself collapses the body (`if is_iterator(response.body): collapse_body()`)
+        'tools.encode.on': not plan.get('noEncode'),
         'tools.sessions.storage_class': FaultyFile if env.file else FaultyRam,
         # a fail-safe no-op probe right after sessions.init: remembers the session object
         'hooks.before_request_body.probe': Hook(grab, failsafe=True, priority=51),
     }
     if env.file:
         conf['tools.sessions.storage_path'] = env.tmp
+        if not well_behaved(plan):
+            # a second acquire_lock() of a file session never succeeds: let the polling loop give up
+            conf['tools.sessions.lock_timeout'] = 0.25
     planned_conf = dict(conf)
     planned_conf['tools.sessions.locking'] = plan['mode']
     n = 0
@@ -264,9 +272,26 @@ def run_plan(plan):
                     'locked_end': True, 'gen_error': None}
         holder.clear()
         # the planned request
+        boom = None
+        if plan.get('afterReq'):
+            def boom():
+                raise _Planned("'after_request' listener")
+            env.cherrypy.engine.subscribe('after_request', boom)
+        try:
+            return _planned_request(env, plan, app, observe, cookie, journal, holder)
+        finally:
+            if boom is not None:
+                env.cherrypy.engine.unsubscribe('after_request', boom)
+    finally:
+        env.close()
+
+
+def _planned_request(env, plan, app, observe, cookie, journal, holder):
+    if True:
         it, got = call(app, _environ('/planned', cookie))
         observe('B')
         gen_error = None
+        close_error = None
         try:
             if plan['consume'] == 'abandon':
                 i = iter(it)
@@ -280,13 +305,15 @@ def run_plan(plan):
         except Exception as e:      # a failing streamed generator: the server logs it and closes
             gen_error = type(e).__name__
         finally:
-            it.close()
+            try:
+                it.close()
+            except Exception as e:  # e.g. ChannelFailures of a failing 'after_request' listener: the server logs it
+                close_error = type(e).__name__
         observe('E')
         sess = holder.get('sess')
         return {'journal': journal, 'leaked': env.leaked(), 'status': got.get('status', '???')[:3],
-                'locked_end': bool(getattr(sess, 'locked', False)), 'gen_error': gen_error}
-    finally:
-        env.close()
+                'locked_end': bool(getattr(sess, 'locked', False)), 'gen_error': gen_error,
+                'close_error': close_error}
 
 
 def plan_line(p):
@@ -319,15 +346,18 @@ USER_PRIOS = [10, 30, 55, 70, 95]
 def gen_plan(rng):
     mode = rng.choice(['implicit', 'implicit', 'early', 'explicit'])
     file = rng.random() < 0.4
-    # handler script, well behaved w.r.t. the lock it holds
+    # handler script; with the RAM backend sometimes one that acquires a lock it holds / releases one
+    # it does not hold (a file session never gets a second lock on its own path: targeted plans only)
     acts = []
     l = mode != 'explicit'
+    sloppy = (not file) and rng.random() < 0.2
     for _ in range(rng.choice([0, 1, 1, 2, 2, 3, 4])):
         a = rng.choice(['touch', 'touch', 'regen', 'acquire', 'release'])
-        if a == 'acquire' and l:
-            a = 'release'
-        if a == 'release' and not l:
-            a = 'acquire'
+        if not sloppy:
+            if a == 'acquire' and l:
+                a = 'release'
+            if a == 'release' and not l:
+                a = 'acquire'
         if a == 'acquire':
             l = True
         elif a == 'release':
@@ -349,6 +379,9 @@ def gen_plan(rng):
         'genTouch': gen and rng.random() < 0.5, 'genRaise': gen and rng.random() < 0.3,
         'consume': rng.choice(['full', 'full', 'abandon']) if stream else 'full',
         'saveFails': rng.random() < 0.25,
+        'afterReq': rng.random() < 0.15,
+        'debug': rng.random() < 0.15,
+        'noEncode': rng.random() < 0.3,
         'oer': rng.choice(['ok'] * 8 + ['exc', 'http']),
         'brb': hooks(0.15), 'bh': hooks(0.2), 'bf': hooks(0.3), 'eer': hooks(0.4),
     }
